@@ -27,6 +27,7 @@ template <class T> static void auv_print(int k, T v) {
 static void auv_print(int k, bool v) { std::printf("%d: %s\n", k, v ? "true" : "false"); }
 static void auv_print(int k, const char *s) { std::printf("%d: %s\n", k, s); }
 static long long auv_arg(char **argv, int i) { return std::atoll(argv[i]); }
+template <class Q, typename Q::NTTP V> struct AuvNttp { static constexpr Q value() { return from_nttp(V); } };
 '''
 
 
@@ -86,6 +87,9 @@ def statements(c, f5_known):
             add("auto q = au::kilo(%s)(static_cast<%s>(a0)); auv_print(@K, q.in(%s));" % (mk, rep, mk))
             add("auv_print(@K, au::is_conversion_lossy(%s(static_cast<%s>(a0)), au::kilo(%s)));" % (mk, rep, mk))
         add("auv_print(@K, (%s(static_cast<%s>(a0)) > au::ZERO));" % (mk, rep))
+        if not fl:
+            # pre-C++20 non-type template parameter support (Quantity::NTTP, from_nttp)
+            add("using QN = decltype(%s(static_cast<%s>(5))); auv_print(@K, AuvNttp<QN, %s(static_cast<%s>(5))>::value().in(%s) + static_cast<%s>(a0));" % (mk, rep, mk, rep, mk, rep))
         if c["io"]:
             add("auv_print(@K, au::unit_label(%s));" % mk)
             add("std::ostringstream os; os << %s(static_cast<%s>(a0)); auv_print(@K, os.str().c_str());" % (mk, rep))
